@@ -30,8 +30,8 @@ class _Sink(__import__("logging").Handler):
 
 
 def set_logging(key, debug: bool | None = None) -> None:
-    """The library must behave the same whatever the application's logging configuration: jobs alternate (by a stable hash of
-    `key`) between logging switched off and every logger at DEBUG with a formatting handler."""
+    """The library must behave the same whatever the application's logging configuration and time zone: jobs alternate (by a stable
+    hash of `key`) between logging switched off and every logger at DEBUG with a formatting handler, and rotate through four TZ values."""
     import logging
     import zlib
     def cheap(k, depth=0):
@@ -40,8 +40,14 @@ def set_logging(key, debug: bool | None = None) -> None:
         if isinstance(k, (bytes, str)):
             return k[:40]
         return k if isinstance(k, (int, float, bool, type(None))) else type(k).__name__
+    h = zlib.crc32(repr(cheap(key)).encode())
+    # ... nor on the process's time zone (no statement mentions local time): jobs also rotate through four zones
+    import os
+    import time
+    os.environ["TZ"] = ("UTC", "Pacific/Auckland", "America/St_Johns", "XYZ-5:30")[(h >> 1) % 4]
+    time.tzset()
     if debug is None:
-        debug = zlib.crc32(repr(cheap(key)).encode()) % 2 == 1
+        debug = h % 2 == 1
     root = logging.getLogger()
     if not debug:
         logging.disable(logging.CRITICAL)
